@@ -172,6 +172,17 @@ def run(rec, tier, seed):
                     rec.case(repr(spec), sample=spec if len(rec.samples) < 2 else None, group=mode)
                     if msg:
                         rec.fail('extend', 'extend', "%s on %r" % (msg, spec), spec, 'C11/extend/post')
+    # extra per-atom / per-term columns on one side only (the other side's rows are padded with '.'), with non-empty identity maps
+    for (xa, xb) in ((True, False), (False, True)):
+        for c in (True, False):
+            a = dict(n=3, seed=0, terms=True, coeffs=c, extra=xa, cell='ortho')
+            b = dict(n=2, seed=4, terms=True, coeffs=c, extra=xb, cell=None)
+            for m in idmaps(2, 3, 4 if tier == 'quick' else 12, rnd):
+                spec = dict(a=a, b=b, idmap={str(k): v for k, v in m.items()}, times=1)
+                msg = check(spec)
+                rec.case(repr(spec), group='extra-columns-on-one-side')
+                if msg:
+                    rec.fail('extend', 'extend', "%s on %r" % (msg, spec), spec, 'C11/extend/post')
     # unequal sets of term kinds on the two sides (a kind present only in self, only in other, tables with and without terms)
     KS = [('bond', 'angle', 'dihedral'), ('bond', 'improper'), ('angle', 'dihedral'), ('improper',), ('dihedral', 'improper'), ()]
     for ka in KS:
